@@ -145,7 +145,7 @@ def run(rep, tier):
             z3.And(E == 0, X >= -1, X <= 5, Y >= -1, Y <= 5),      # direct calls, two in a row on one object
             z3.And(E == 1, X >= 0, X <= 5, Y == 0),                # dot_bracket, HiGHS available with behaviour X
             z3.And(E == 2, X >= -1, X <= 5, Y == 0))]              # dot_bracket, HiGHS absent, default solver X (None = -1)
-        mp, nq1, dt1 = allsat.allsat(P, consP)
+        mp, nq1, dt1 = allsat.pairings(n)
         mc, nq2, dt2 = allsat.allsat([E, X, Y], consC)
         nq, dt = nq1 + nq2, dt1 + dt2
         inputs = [(p_, c_[0], c_[1], c_[2]) for p_ in mp for c_ in mc]
